@@ -33,13 +33,16 @@ var clusterNames = []string{"alpha", "beta", "gamma", "delta.example.com", "x.io
 var (
 	longName = strings.Repeat(strings.Repeat("l", 63)+".", 3) + "long-name.example"
 	idnName  = "xn--bcher-kva.Example"
+	// rawName: the same kind of name as raw UTF-8 (not legal on the wire, but nothing stops an object or a client from
+	// carrying it); judged only for what the statement fixes: case-insensitive (as Go folds case), port ignored
+	rawName = "B\u00fccher.Example"
 )
 
-var aliasPool = []string{"x.io", "Y.io", "shared.Example.COM", "api.k8s.local", "tenant-1", "edge", "alpha", "beta", "gamma", longName, idnName}
+var aliasPool = []string{"x.io", "Y.io", "shared.Example.COM", "api.k8s.local", "tenant-1", "edge", "alpha", "beta", "gamma", longName, idnName, rawName}
 
 // base names of the probe universe: every name that can be claimed plus two that never are ("alph" is a prefix of a
 // cluster name, "ghost.io" is unrelated)
-var baseNames = []string{"alpha", "beta", "gamma", "delta.example.com", "x.io", "y.io", "shared.example.com", "api.k8s.local", "tenant-1", "edge", "alph", "ghost.io", longName, strings.ToLower(idnName)}
+var baseNames = []string{"alpha", "beta", "gamma", "delta.example.com", "x.io", "y.io", "shared.example.com", "api.k8s.local", "tenant-1", "edge", "alph", "ghost.io", longName, strings.ToLower(idnName), strings.ToLower(rawName)}
 
 func mixCase(s string) string {
 	b := []byte(s)
@@ -273,7 +276,7 @@ func (w *world) step(ev Event, g *vkit.Rand, deep bool) {
 			w.pend[ev.Name], w.pendS[ev.Name] = o, ev.Obj
 		case sr.Err != nil && sr.Panic == nil:
 			// an error goes through the queue's rate-limited retry: at most maxErrRetries (3) more deliveries
-			w.pend[ev.Name], w.pendS[ev.Name], w.errLeft[ev.Name] = o, ev.Obj, 3
+			w.pend[ev.Name], w.pendS[ev.Name], w.errLeft[ev.Name] = o, ev.Obj, errRetries()
 		}
 	case "redeliver":
 		// the queue re-delivers the very object that asked for a requeue; only generated while it still is the lister's
@@ -287,7 +290,7 @@ func (w *world) step(ev Event, g *vkit.Rand, deep bool) {
 		case sr.Err != nil && sr.Panic == nil:
 			left, counted := w.errLeft[ev.Name]
 			if !counted {
-				left = 3
+				left = errRetries()
 			}
 			left--
 			w.errLeft[ev.Name] = left
@@ -385,6 +388,16 @@ func (w *world) step(ev Event, g *vkit.Rand, deep bool) {
 					return
 				}
 				w.infos[got] = ci
+			}
+		}
+	}
+	// a trailing dot ("y.io.") is not covered by the statement: observed and counted, never judged
+	for _, n := range baseNames {
+		if want := w.model.Owner[n]; want != "" {
+			if got, _ := w.resolve(n + "."); got == want {
+				r.Count("trailing_dot_hosts_resolving_to_the_owner_not_judged", 1)
+			} else {
+				r.Count("trailing_dot_hosts_not_resolving_not_judged", 1)
 			}
 		}
 	}
@@ -803,6 +816,12 @@ func (w *world) listener() net.Listener {
 }
 
 func (w *world) checkHandshake(v variant, owner string) bool {
+	for i := 0; i < len(v.Host); i++ {
+		if v.Host[i] >= 0x80 {
+			w.r.Count("handshakes_skipped_non_ascii_sni", 1) // crypto/tls does not put such a name into a ClientHello
+			return true
+		}
+	}
 	ln := w.listener()
 	if ln == nil {
 		w.r.Inconclusive("cannot open a TLS listener")
@@ -1310,6 +1329,7 @@ func sortStrings(s []string) {
 func TestCheck(t *testing.T) {
 	vkit.Run(t, "C10", "exploration", func(r *vkit.R) {
 		initMaterial()
+		go observeQueueContract() // the real pkg/syncqueue, observed next to the other phases (about 8 s of waiting, no CPU)
 		r.Rule("seeded random histories of apply/delete/re-delivery events over 6 cluster names and a 9-entry alias pool (mixed case, includes other clusters' names), " +
 			"with scripted sub-sequences: collisions (a name of another live cluster is claimed, also as the object's own name), alias moves A->B in both orders " +
 			"(release first; claim first = refused, then re-delivered after the release), rename by delete+create in both orders, case changes / reorders / duplicates, " +
@@ -1319,14 +1339,14 @@ func TestCheck(t *testing.T) {
 			"so that the list keeps its length, followed by another cluster claiming the dropped name, in-place rotation of a live cluster's serving key pair / client CA / both (changed, removed, added; names unchanged) " +
 			"with the cluster's hosts used as SNI (GetConfigForClient and, in traffic histories, a real handshake) immediately before and after the update. The base GetConfigForClientFunc " +
 			"returns one long-lived *tls.Config in 2 of 3 histories and a fresh clone in the others. The real UpstreamClusterController processes every event (VerifSync over a scripted lister). " +
-			"After EVERY event: all 14 base names (incl. a 240-character name of 63-character labels and an IDN name in wire form) x 8 case/port variants (ports 443, 6443, 0, 65535 and the empty port) are resolved through the production path and compared with a first-claimant ownership model " +
+			"After EVERY event: all 15 base names (incl. a raw UTF-8 name) (incl. a 240-character name of 63-character labels and an IDN name in wire form) x 8 case/port variants (ports 443, 6443, 0, 65535 and the empty port) are resolved through the production path and compared with a first-claimant ownership model " +
 			"(I1 resolution, I2 frame, I3 delete), the TLS config from WrapGetConfigForClient and SNIVerifyOptions are compared with the owner's certificate / client CA " +
 			"(behaviourally: which client certificates verify) (I4); on a sample of events real requests go through the handler chain to per-cluster stub upstreams (I5) " +
 			"and real TLS handshakes are made against a listener using the wrapped GetConfigForClient (I6). Concurrent part (names-under-update): 2 000 updates (thorough 20 000) that change one cluster's server-name list (6 volatile aliases in random subsets, order and case shuffled) " +
 			"while keeping 5 aliases and the cluster's own name, applied while 3-6 goroutines resolve the kept names and an untouched cluster's names through Manager.Get (case/port variants), " +
 			"WrapGetConfigForClient and the handler chain: a kept name must resolve to its cluster at every moment. Non-trivial = the history contains a collision, a move, a rename or a delete of a live cluster; distinct = hash of the event list.")
 		r.Assume("after a refused (conflicting) object the statement leaves open whether its non-conflicting part takes effect; both outcomes are accepted and the observed one is adopted")
-		r.Assume("queue contract (pkg/syncqueue): an object whose sync asked for RequeueAfter is re-delivered for as long as it keeps asking; an object whose sync returned an error is re-delivered at most maxErrRetries = 3 more times; at the end of a history everything still pending is delivered, then nothing is in flight")
+		r.Assume("queue contract, observed on the real pkg/syncqueue in every run (queue_test.go): an object whose sync asks for RequeueAfter is re-delivered for as long as it keeps asking; an object whose sync returns an error is re-delivered N more times (N measured, 'dropped' = no delivery for 5 s while the requeueing control object keeps being delivered) and then dropped; at the end of a history everything still pending is delivered, then nothing is in flight")
 		r.Assume("SNI values carry no port (RFC 6066); port variants are exercised through the Host-header paths (handler chain, SNIVerifyOptions)")
 
 		nh := r.N(1500, 20000)
@@ -1373,6 +1393,7 @@ func TestCheck(t *testing.T) {
 			}
 		})
 		namesUnderUpdate(r)
+		reportQueueContract(r)
 		r.Set("histories_by_scenario_class", classCount)
 		r.Set("events_per_history", evPer)
 		r.Require(r.Counter("events") >= int64(nh*evPer*9/10), "too few events processed")
